@@ -29,7 +29,7 @@ from ..canon import fingerprint
 from ..explorer import Step
 
 PROPERTY = "C20"
-ALPHABET = "racing frames on the reset stream D: HEADERS info/response/trailers, DATA small/ES/burst(5x16384), WINDOW_UPDATE, RST_STREAM, PUSH_PROMISE(D->P); on the refused P: HEADERS response, DATA, RST_STREAM, WINDOW_UPDATE; cleanup; open+probe a further stream"
+ALPHABET = "racing frames on the reset stream D: HEADERS info/response/trailers, DATA small/ES/burst(5x16384)/padded burst(300 x 1 byte + 255 padding), WINDOW_UPDATE, RST_STREAM, PUSH_PROMISE(D->P); on the refused P: HEADERS response, DATA, RST_STREAM, WINDOW_UPDATE; cleanup; open+probe a further stream"
 BOUNDS = {"quick": "depth 5 from each of the 18 initial scenarios", "thorough": "depth 7 (or time budget, reported)"}
 sb = H.stateless_block
 
@@ -151,6 +151,7 @@ class Spec:
                     acts += ["rx:D:%d" % sid, "rx:D:%d:es" % sid, "rx:H:%d:trailers" % sid]
                     if sid in st.dead_ids:
                         acts.append("rx:D:%d:burst" % sid)
+                        acts.append("rx:D:%d:padburst" % sid)
                 if sid in st.can_push and sid % 2 == 1:
                     acts.append("rx:PP:%d" % sid)
             else:
@@ -158,6 +159,7 @@ class Spec:
                     acts += ["rx:D:%d" % sid, "rx:D:%d:es" % sid, "rx:H:%d:trailers" % sid]
                     if sid in st.dead_ids:
                         acts.append("rx:D:%d:burst" % sid)
+                        acts.append("rx:D:%d:padburst" % sid)
         return acts
 
     def apply(self, st, lab):
@@ -216,10 +218,12 @@ class Spec:
                 st.phase[sid] = "ended"
             o = h.rx(frames)
         elif kind == "D":
-            if parts[-1] == "burst":
+            if parts[-1] in ("burst", "padburst"):
                 o = None
-                for _ in range(5):
-                    o = h.rx([wire.data(sid, b"z" * 16384)])
+                # burst: 5 x 16384 bytes; padburst: 300 x (1 byte + 255 of padding + length octet) = 77100 flow-controlled
+                # bytes.  Either exceeds the whole connection window unless every frame is credited back in full.
+                for _ in range(5 if parts[-1] == "burst" else 300):
+                    o = h.rx([wire.data(sid, b"z" * 16384)] if parts[-1] == "burst" else [wire.data(sid, b"z", pad=255)])
                     if o.kind == "raise":
                         break
                     self.check_events(st, o, bad, lab)
@@ -248,7 +252,7 @@ class Spec:
         if o.kind == "raise":
             bad("racing-frame-broke-connection",
                 "%s (stream %d was reset locally%s): %s %s" % (lab, sid, ", already forgotten" if sid not in h.conn.streams else "", o.brief(), o.msg),
-                frame=kind + (":" + parts[3] if kind == "H" else "") + (":burst" if parts[-1] == "burst" else ""),
+                frame=kind + (":" + parts[3] if kind == "H" else "") + (":" + parts[-1] if parts[-1] in ("burst", "padburst") else ""),
                 refused_promise=(sid not in (1, 2) or (sid == 2 and False)), code=wire.err_name(int(o.code)) if o.is_proto else o.exc_name,
                 forgotten=sid not in h.conn.streams)
             st.dead = True
